@@ -319,11 +319,12 @@ Proof. exact fischlin_other_context_other_key. Qed.
 Print Assumptions C08_fischlin_other_context_other_key_partial.
 
 Theorem C08_randfischlin_accept_iff_partial :
-  forall (xof : xof_call -> bytes) (H : bytes -> bytes) c pname reps sv,
-  randfischlin_accept xof H c pname reps sv = true <->
+  forall (xof : xof_call -> bytes) (H : bytes -> bytes) c pname len reps sv,
+  randfischlin_accept xof H c pname len reps sv = true <->
   N.of_nat (length reps) = rf_R /\
   exists call, rf_crs_call c pname = Some call /\
     forall j a e z, nth_error reps j = Some (a, e, z) ->
+      length e = len /\
       forallb (fun x => N.eqb x 0)
         (firstn rf_LBytes (H (rf_rep_input (xof call) (flat_map (fun r => fst (fst r)) reps) (N.of_nat j) e z))) = true /\
       sv (N.of_nat j) e = true.
@@ -331,10 +332,18 @@ Proof. exact randfischlin_accept_iff. Qed.
 Print Assumptions C08_randfischlin_accept_iff_partial.
 
 Theorem C08_randfischlin_wrong_count :
-  forall (xof : xof_call -> bytes) (H : bytes -> bytes) c pname reps sv,
-  N.of_nat (length reps) <> rf_R -> randfischlin_accept xof H c pname reps sv = false.
+  forall (xof : xof_call -> bytes) (H : bytes -> bytes) c pname len reps sv,
+  N.of_nat (length reps) <> rf_R -> randfischlin_accept xof H c pname len reps sv = false.
 Proof. exact randfischlin_wrong_count. Qed.
 Print Assumptions C08_randfischlin_wrong_count.
+
+(* the guard of the fix for finding randfischlin-challenge-leading-zeros *)
+Theorem C08_randfischlin_wrong_challenge_length :
+  forall (xof : xof_call -> bytes) (H : bytes -> bytes) c pname len reps sv j a e z,
+  nth_error reps j = Some (a, e, z) -> length e <> len ->
+  randfischlin_accept xof H c pname len reps sv = false.
+Proof. exact randfischlin_wrong_challenge_length. Qed.
+Print Assumptions C08_randfischlin_wrong_challenge_length.
 
 Theorem C08_randfischlin_crs_binds_context_partial :
   forall c1 p1 c2 p2 k,
